@@ -160,7 +160,7 @@ def stage_mc(run, st):
     """Exhaustive bounded model check of the design-level properties."""
     wd = run.sub('mc-' + st['name'])
     cfgp = os.path.join(wd, 'mc.cfg')
-    write_cfg(cfgp, consts=st.get('consts'), subst=st.get('subst'), invariants=st.get('invariants', ()),
+    write_cfg(cfgp, spec=st.get('spec', 'Spec'), consts=st.get('consts'), subst=st.get('subst'), invariants=st.get('invariants', ()),
               properties=st.get('properties', ()), view=st.get('view'))
     out, rc = tlc(run, wd, st['module'] + '.tla', 'mc.cfg', workers=st.get('workers', NCPU), xmx=st.get('xmx', '8g'),
                   timeout=st.get('timeout', 1800), extra=st.get('extra', ()))
@@ -178,10 +178,13 @@ def stage_mc(run, st):
 def stage_mc_neg(run, st):
     """Vacuity guard: the named deviation (as-built discipline) MUST violate the invariant, otherwise the property is not exercised by the model."""
     wd = run.sub('mcneg-' + st['name'])
-    write_cfg(os.path.join(wd, 'mc.cfg'), consts=st.get('consts'), subst=st.get('subst'), invariants=st.get('invariants', ()))
+    write_cfg(os.path.join(wd, 'mc.cfg'), spec=st.get('spec', 'Spec'), consts=st.get('consts'), subst=st.get('subst'), invariants=st.get('invariants', ()),
+              properties=st.get('properties', ()))
     out, rc = tlc(run, wd, st['module'] + '.tla', 'mc.cfg', workers=st.get('workers', 4), xmx='4g', timeout=600)
     want = 'Invariant %s is violated' % st['expect']
-    if want not in out:
+    if st.get('properties'):     # a temporal property: TLC names every violated property in one line
+        want = 'Temporal propert'
+    if want not in out or (st.get('properties') and st['expect'] not in out):
         raise Infra('the deviation model %s no longer violates %s (vacuous model?):\n%s' % (st['name'], st['expect'], out[-2000:]))
     d, g = tlc_counts(out)
     run.states += d
